@@ -412,17 +412,67 @@ def effect(repo, out):
 
 
 # --------------------------------------------------------------------------- generic helpers
+def _state_stores(n, ctx):
+    """[(normalised path, value)] for the non-local state written by CFG node n.
+
+    value is an expression, or ('elem', name, i) for the i-th element of a tuple held in local *name*
+    (`a.x, a.y = saved`).  Handles single, chained and tuple-unpacking assignments.
+    """
+    if n.kind != 'stmt' or not isinstance(n.ast, ast.Assign):
+        return []
+    res = []
+    v = n.ast.value
+    for t in n.ast.targets:
+        pairs = []
+        if isinstance(t, (ast.Tuple, ast.List)):
+            if isinstance(v, (ast.Tuple, ast.List)) and len(v.elts) == len(t.elts):
+                pairs = list(zip(t.elts, v.elts))
+            elif isinstance(v, ast.Name):
+                pairs = [(te, ('elem', v.id, i)) for i, te in enumerate(t.elts)]
+            else:
+                pairs = [(te, None) for te in t.elts]
+        else:
+            pairs = [(t, v)]
+        for te, ve in pairs:
+            if not isinstance(te, (ast.Attribute, ast.Subscript)):
+                continue
+            p = ctx.norm_path(te, n)
+            if p is None or '[*]' in p:
+                continue
+            res.append((p, ve))
+    return res
+
+
 def _state_store(n, ctx):
-    """(normalised path, value expr) if CFG node n is a plain assignment to non-local state."""
+    """(normalised path, value expr) if CFG node n is a plain single assignment to non-local state."""
+    ss = _state_stores(n, ctx)
+    if len(ss) == 1 and isinstance(ss[0][1], ast.AST):
+        return ss[0]
+    return None
+
+
+def _local_saves(n, ctx):
+    """{local name: {None or index: normalised path}} for snapshots taken by CFG node n."""
     if n.kind != 'stmt' or not isinstance(n.ast, ast.Assign) or len(n.ast.targets) != 1:
-        return None
-    t = n.ast.targets[0]
-    if not isinstance(t, (ast.Attribute, ast.Subscript)):
-        return None
-    p = ctx.norm_path(t, n)
-    if p is None or '[*]' in p:
-        return None
-    return p, n.ast.value
+        return {}
+
+    def pth(e):
+        p = ctx.norm_path(e, n) if astx.path(e) else None
+        return p if p and ('.' in p or '[' in p) else None
+    t, v = n.ast.targets[0], n.ast.value
+    out = {}
+    if isinstance(t, ast.Name):
+        if isinstance(v, (ast.Tuple, ast.List)):
+            d = {i: pth(e) for i, e in enumerate(v.elts)}
+            if any(d.values()):
+                out[t.id] = d
+        elif pth(v):
+            out[t.id] = {None: pth(v)}
+    elif isinstance(t, (ast.Tuple, ast.List)) and isinstance(v, (ast.Tuple, ast.List)) and len(t.elts) == len(v.elts):
+        for te, ve in zip(t.elts, v.elts):
+            if isinstance(te, ast.Name) and pth(ve):
+                out[te.id] = {None: pth(ve)}
+    return out
 
 
 def _initial_constant(repo, path):
@@ -466,45 +516,49 @@ def _check_context_manager(repo, fn, out, problem_roots):
     after = g.reach([m for m, _ in g.succ[y]])
     before = {n for n in g.nodes if n not in after and g.path([n], [y]) is not None and n is not y}
     effects = {}    # path -> [nodes]
-    saves = {}      # local name -> (node, saved path)
+    saves = {}      # local name -> (node, {None/index: saved path})
     for n in sorted(before, key=lambda n: n.id):
-        ss = _state_store(n, ctx)
-        if ss:
-            effects.setdefault(ss[0], []).append(n)
-        if n.kind == 'stmt' and isinstance(n.ast, ast.Assign) and len(n.ast.targets) == 1 and \
-                isinstance(n.ast.targets[0], ast.Name):
-            p = ctx.norm_path(n.ast.value, n) if astx.path(n.ast.value) else None
-            if p and ('.' in p or '[' in p):
-                saves[n.ast.targets[0].id] = (n, p)
+        for p, _ in _state_stores(n, ctx):
+            effects.setdefault(p, []).append(n)
+        for nm, d in _local_saves(n, ctx).items():
+            saves[nm] = (n, d)
     if not effects:
         raise AnalysisError(f'{fn.ident}: no state store before the yield')
     succs = [m for m, _ in g.succ[y]]
     for p, enodes in effects.items():
         restores = []
         for n in after:
-            ss = _state_store(n, ctx)
-            if ss and ss[0] == p:
-                restores.append(n)
+            for p2, v in _state_stores(n, ctx):
+                if p2 == p:
+                    restores.append((n, v))
         if not restores:
             out.bad(fn, enodes[0].ast, f'`{p}` is set before the yield and never restored', key=f'no-restore:{p}')
             continue
-        w = g.must_pass(succs, [g.exit, g.raise_exit], restores)
+        w = g.must_pass(succs, [g.exit, g.raise_exit], [n for n, _ in restores])
         if w is not None:
             exc = w[-1] is g.raise_exit
             out.bad(fn, enodes[0].ast, f'`{p}` is not restored when the with-body '
                     f'{"raises" if exc else "ends"}: {g.fmt_path(w)}', key=f'no-restore:{p}')
             continue
         ok = True
-        for r in restores:
-            v = r.ast.value
+        for r, v in restores:
+            ref = None      # (local name, index or None)
             if isinstance(v, ast.Name):
-                ds = ctx.rd.defs(r, v.id)
-                sv = saves.get(v.id)
-                if sv is None or ds != {sv[0]}:
-                    out.unsure(fn, r.ast, f'restore value `{v.id}` is not a unique snapshot taken before the yield')
+                ref = (v.id, None)
+            elif isinstance(v, tuple) and v[0] == 'elem':
+                ref = (v[1], v[2])
+            elif isinstance(v, ast.Subscript) and isinstance(v.value, ast.Name) and \
+                    isinstance(v.slice, ast.Constant) and isinstance(v.slice.value, int):
+                ref = (v.value.id, v.slice.value)
+            if ref is not None:
+                nm, idx = ref
+                ds = ctx.rd.defs(r, nm)
+                sv = saves.get(nm)
+                if sv is None or ds != {sv[0]} or idx not in sv[1] or sv[1][idx] is None:
+                    out.unsure(fn, r.ast, f'restore value `{nm}` is not a unique snapshot taken before the yield')
                     ok = False
                     continue
-                snode, spath = sv
+                snode, spath = sv[0], sv[1][idx]
                 if spath != p:
                     out.bad(fn, r.ast, f'`{p}` is restored from the snapshot of `{spath}`', key=f'cross-restore:{p}')
                     ok = False
@@ -528,7 +582,7 @@ def _check_context_manager(repo, fn, out, problem_roots):
                 out.unsure(fn, r.ast, f'restore value of `{p}` is neither a snapshot nor a constant')
                 ok = False
         if ok:
-            out.ok(fn, restores[0].ast, f'`{p}` restored on normal and exceptional exit')
+            out.ok(fn, restores[0][0].ast, f'`{p}` restored on normal and exceptional exit')
 
 
 @rule('C31.ctx', floor=6)
@@ -745,6 +799,59 @@ def _snapshot_of(v):
     return None
 
 
+def _is_self_nl_set_val(c):
+    r = astx.receiver(c)
+    return astx.callee_attr(c) == 'set_val' and isinstance(r, ast.Attribute) and r.attr in NL_ATTRS and \
+        astx.path(r.value) == 'self'
+
+
+def _writeback_sites(repo, fn, ctx, out):
+    """Whole-vector writes `self.<nonlinear vec>.set_val(x)` in fn, directly or through a private helper
+    method of the same class whose body is a straight line of such writes of its own parameters
+    (the helper is inlined at the call site).  Yields (cfg node, reported call, attr, value expr, idxs)."""
+    g = ctx.g
+    for n in g.nodes:
+        if n.kind in ('entry', 'exit', 'raise', 'join'):
+            continue
+        if n.tag and any(m is not n for m in g.nodes_of(n.ast) if m.id < n.id):
+            continue        # finally copy of a node already reported
+        for c in n.calls():
+            if _is_self_nl_set_val(c):
+                yield n, c, astx.receiver(c).attr, astx.arg(c, 0, 'val'), astx.arg(c, 1, 'idxs')
+                continue
+            if astx.path(astx.receiver(c)) != 'self' or fn.cls is None:
+                continue
+            h = repo.lookup(fn.rel, fn.cls.name, astx.callee_attr(c))
+            if h is None or h.node is fn.node:
+                continue
+            inner = [x for x in astx.calls(h.node) if _is_self_nl_set_val(x)]
+            if not inner:
+                continue
+            params = [a.arg for a in h.node.args.args][1:]
+            top = [st.value for st in astx.strip_doc(h.node.body)
+                   if isinstance(st, ast.Expr) and isinstance(st.value, ast.Call)]
+            simple = all(isinstance(st, (ast.Expr, ast.Pass)) for st in astx.strip_doc(h.node.body)) and \
+                all(x in top for x in inner) and not h.node.args.vararg and not h.node.args.kwarg and \
+                not any(isinstance(a, ast.Starred) for a in c.args) and not any(k.arg is None for k in c.keywords)
+            if not simple:
+                out.unsure(fn, c, f'helper {h.qualname} writes a nonlinear vector but is not a straight-line '
+                           'write-back of its parameters')
+                continue
+            actual = {}
+            for i, a in enumerate(c.args):
+                if i < len(params):
+                    actual[params[i]] = a
+            for k in c.keywords:
+                actual[k.arg] = k.value
+            for x in inner:
+                v = astx.arg(x, 0, 'val')
+                if isinstance(v, ast.Name) and v.id in actual:
+                    yield n, c, astx.receiver(x).attr, actual[v.id], astx.arg(x, 1, 'idxs')
+                else:
+                    out.unsure(fn, c, f'helper {h.qualname} writes self.{astx.receiver(x).attr} from something other '
+                               'than one of its parameters')
+
+
 @rule('C31.check_partials', floor=3)
 def check_partials(repo, out):
     """Component.check_partials: each nonlinear vector is written back from a copy of itself taken in the same scaling state, and the outputs write-back follows every unscaled round trip."""
@@ -753,15 +860,8 @@ def check_partials(repo, out):
     g = ctx.g
     restores = {}   # attr -> [nodes]
     wired_ok = {}
-    for n in g.calling('set_val'):
-        for c in n.calls():
-            r = astx.receiver(c)
-            if astx.callee_attr(c) != 'set_val' or not (isinstance(r, ast.Attribute) and r.attr in NL_ATTRS
-                                                        and astx.path(r.value) == 'self'):
-                continue
-            attr = r.attr
-            val = astx.arg(c, 0, 'val')
-            idx = astx.arg(c, 1, 'idxs')
+    for n, c, attr, val, idx in _writeback_sites(repo, fn, ctx, out):
+        if True:
             if idx is not None or not isinstance(val, ast.Name):
                 out.unsure(fn, c, f'write to self.{attr} is not a whole-vector write-back of a snapshot')
                 continue
@@ -1768,6 +1868,35 @@ selftest(
     Twin('twin-cr-flipped-plus-one', PROB, "else self._run_counter < 0", "else 0 >= self._run_counter + 1"),
     Twin('twin-cr-if-statement', PROB, "                    do_run = run_model if run_model is not None else self._run_counter < 0\n",
          "                    never_run = not (self._run_counter >= 0)\n                    do_run = run_model if run_model is not None else never_run\n"),
+    # ---- shapes accepted in the robustness round (helper extraction, tuple snapshot, alias of _metadata)
+    Twin('twin-cp-helper-writeback', COMP, "                self._inputs.set_val(input_cache)\n                self._outputs.set_val(output_cache)\n",
+         "                self._put_back(input_cache, output_cache)\n",
+         also=[(COMP, "    def _nocs_warning(self):\n",
+                "    def _put_back(self, ins, outs):\n        self._inputs.set_val(ins)\n        self._outputs.set_val(outs)\n\n"
+                "    def _nocs_warning(self):\n")]),
+    Mutant('cp-helper-swapped-args', COMP, "                self._inputs.set_val(input_cache)\n                self._outputs.set_val(output_cache)\n",
+           "                self._put_back(output_cache, input_cache)\n", 'C31.check_partials',
+           also=[(COMP, "    def _nocs_warning(self):\n",
+                  "    def _put_back(self, ins, outs):\n        self._inputs.set_val(ins)\n        self._outputs.set_val(outs)\n\n"
+                  "    def _nocs_warning(self):\n")]),
+    Mutant('cp-helper-inside-unscaled', COMP, "                self._inputs.set_val(input_cache)\n                self._outputs.set_val(output_cache)\n",
+           "                    self._put_back(input_cache, output_cache)\n", 'C31.check_partials',
+           also=[(COMP, "    def _nocs_warning(self):\n",
+                  "    def _put_back(self, ins, outs):\n        self._inputs.set_val(ins)\n        self._outputs.set_val(outs)\n\n"
+                  "    def _nocs_warning(self):\n")]),
+    Twin('twin-ctx-tuple-snapshot-alias', COLOR,
+         "    saved_rand_subjacs = problem._metadata['randomize_subjacs']\n    saved_rand_seeds = problem._metadata['randomize_seeds']\n",
+         "    pm = problem._metadata\n    saved = (pm['randomize_subjacs'], pm['randomize_seeds'])\n",
+         also=[(COLOR, "        problem._metadata['randomize_subjacs'] = saved_rand_subjacs\n        problem._metadata['randomize_seeds'] = saved_rand_seeds\n",
+                "        pm = problem._metadata\n        pm['randomize_subjacs'], pm['randomize_seeds'] = saved\n")]),
+    Mutant('ctx-tuple-restore-swapped', COLOR,
+           "    saved_rand_subjacs = problem._metadata['randomize_subjacs']\n    saved_rand_seeds = problem._metadata['randomize_seeds']\n",
+           "    pm = problem._metadata\n    saved = (pm['randomize_subjacs'], pm['randomize_seeds'])\n", 'C31.ctx',
+           also=[(COLOR, "        problem._metadata['randomize_subjacs'] = saved_rand_subjacs\n        problem._metadata['randomize_seeds'] = saved_rand_seeds\n",
+                  "        pm = problem._metadata\n        pm['randomize_seeds'], pm['randomize_subjacs'] = saved\n")]),
+    Twin('twin-ctx-unpack-two-saves', COLOR,
+         "    saved_rand_subjacs = problem._metadata['randomize_subjacs']\n    saved_rand_seeds = problem._metadata['randomize_seeds']\n",
+         "    saved_rand_subjacs, saved_rand_seeds = problem._metadata['randomize_subjacs'], problem._metadata['randomize_seeds']\n"),
     # ---- twins
     Twin('twin-zero-vecs-alias', TJ, "        self.model._doutputs.set_val(0.0)\n        self.model._dresiduals.set_val(0.0)\n",
          "        mdl = self.model\n        mdl._doutputs.set_val(0.0)\n        dres = mdl._dresiduals\n        dres.set_val(0.0)\n"),
